@@ -4,8 +4,8 @@ import vlib
 from props.common import TRUSTED_BASE, ASSUMPTIONS
 
 ID = "C19"
-LEAN_MODULES = ["LexVerif.Props.C19", "LexVerif.Props.RoundNE", "LexVerif.Props.TablesParse"]
-GEN = ["parse_tables"]
+LEAN_MODULES = ["LexVerif.Props.C19", "LexVerif.Props.RoundNE", "LexVerif.Props.TablesParse", "LexVerif.Props.Literals.ParseFloat", "LexVerif.Props.Literals.ParseInteger"]
+GEN = ["parse_tables", "literals"]
 TRUSTED = TRUSTED_BASE + [
     "the <=1 ulp bound of the moderate-path estimates (Eisel-Lemire / Bellerophon / binary) is NOT proved in Lean; it is measured against the oracle on the worst cases, which are exactly the inputs on which lossy and exact parsing differ",
 ]
